@@ -19,6 +19,8 @@ Forms == {"bits", "list", "nested"}
 VARIABLES c, ready
 Init == /\ ready = FALSE
         /\ \/ \E b \in Short \cup Long, a \in 0..7 : c = [kind |-> "bytes", bytes |-> b, align |-> a, form |-> "bits"]
+           \* the same slice when its parent was computed at run time and is gone: the slice is the only owner of its buffer
+           \/ \E b \in Short \cup Long, a \in 0..7 : c = [kind |-> "bytes", bytes |-> b, align |-> a, form |-> "ownbits"]
            \/ \E b \in Short \cup Long, f \in {"list", "nested"} : c = [kind |-> "bytes", bytes |-> b, align |-> 0, form |-> f]
            \/ \E n \in {1, 2} : c = [kind |-> "bytes", bytes |-> [i \in 1..n |-> 65], align |-> 0, form |-> "str"]
            \/ \E k \in {"oddbits", "bigint", "negint", "real", "nilarg", "map", "mixedvec"} : c = [kind |-> k, bytes |-> <<>>, align |-> 0, form |-> "bad"]
